@@ -195,6 +195,8 @@ def run(pid, cfg, tier, rdir):
         undet = [c for c in r.get("checks", []) if c.get("status") in ("Undetermined", "UNDETERMINED")]
         if r["status"] == "Success" and not unsat_covers:
             res["passed"] += 1
+            if (pd.get("total_properties") or 0) > 0:
+                res["nontrivial"] = res.get("nontrivial", 0) + 1
             if len(samples) < 8:
                 samples.append({"harness": name, "program": h.program[:400], "checks": pd.get("total_properties"), "covers_satisfied": pd.get("satisfied"), "ms": r.get("duration_ms")})
             continue
